@@ -186,6 +186,9 @@ fn check_input(s: &str, idx: u64, fl: &Flags, st: &mut Stats) {
                 Ok(()) => {
                     // hook-free cross-check of C10: every borrowed string lies in the input
                     for (k, off, len) in &ser1.slices {
+                        if *k == "op" && *off < 0 && *len == 3 {
+                            continue; // the `not` of `x not OP y` is synthesised, not borrowed
+                        }
                         if *off < 0
                             || !s.is_char_boundary(*off as usize)
                             || !s.is_char_boundary(*off as usize + *len)
